@@ -1025,4 +1025,63 @@ where
 impl<T, E> Deserr<E> for Vec<T>
 where"""),
     ]},
+    {"id": "keep-rename-impl-generics", "kind": "preserving", "props": [], "edits": [
+        (IMPLS, """impl<T, E> Deserr<E> for Vec<T>
+where
+    T: Deserr<E>,
+    E: DeserializeError,
+{
+    fn deserialize_from_value<V: IntoValue>(
+        value: Value<V>,
+        location: ValuePointerRef,
+    ) -> Result<Self, E> {""", """impl<Item, Er> Deserr<Er> for Vec<Item>
+where
+    Item: Deserr<Er>,
+    Er: DeserializeError,
+{
+    fn deserialize_from_value<Src: IntoValue>(
+        value: Value<Src>,
+        location: ValuePointerRef,
+    ) -> Result<Self, Er> {"""),
+        (IMPLS, """                    let result =
+                        T::deserialize_from_value(value.into_value(), location.push_index(index));
+                    match result {
+                        Ok(value) => {
+                            vec.push(value);
+                        }
+                        Err(e) => {
+""" + VEC_MERGE, """                    let result =
+                        Item::deserialize_from_value(value.into_value(), location.push_index(index));
+                    match result {
+                        Ok(value) => {
+                            vec.push(value);
+                        }
+                        Err(e) => {
+""" + VEC_MERGE.replace("E::merge", "Er::merge")),
+        (IMPLS, """            v => Err(take_cf_content(E::error(
+                None,
+                ErrorKind::IncorrectValueKind {
+                    actual: v,
+                    accepted: &[ValueKind::Sequence],
+                },
+                location,
+            ))),
+        }
+    }
+}
+
+impl<T, E> Deserr<E> for Option<T>""", """            v => Err(take_cf_content(Er::error(
+                None,
+                ErrorKind::IncorrectValueKind {
+                    actual: v,
+                    accepted: &[ValueKind::Sequence],
+                },
+                location,
+            ))),
+        }
+    }
+}
+
+impl<T, E> Deserr<E> for Option<T>"""),
+    ]},
 ]
